@@ -104,6 +104,7 @@ func (a *sessionAwareAdapter) RestoreSession(
 ) (session *SessionToPersist, ok bool) {
 	a.mu.Lock()
 	defer a.mu.Unlock()
+	vhook.Event("session.restore.start", "o", a, "now", time.Now())
 	sessionWithTS, ok := a.sessions[pid]
 	if !ok {
 		vhook.Event("session.restore", "o", a, "pid", pid, "offset", offset, "ok", false, "why", "nosession", "missed", []string{}, "now", time.Now())
